@@ -82,7 +82,9 @@ def generate(rng, tier, index):
             "restart": rng.random() < 0.5, "cli_explicit_dir": rng.random() < 0.4,
             "consumer_spelling": spell,
             "default_use_cache": rng.random() < 0.5,
-            "uncached_also_creates": rng.random() < 0.35}
+            "uncached_also_creates": rng.random() < 0.35,
+            "two_products": ({"data_seed": rng.randrange(2**31), "seed": rng.randrange(1, 2**31)}
+                             if rng.random() < 0.3 else None)}
 
 
 def _reads_of(events, pred):
@@ -299,6 +301,46 @@ def execute(plan):
             diffs = tree_diff(ref, t2)
             if diffs:
                 violations.append(Violation(ID, "uncached-tree-differs", site, {"diffs": diffs}))
+        if plan.get("two_products") and not violations:
+            # two products with the same file names but other samples, each with an index cache
+            # describing it, opened through their caches AT THE SAME TIME by two threads (seeded
+            # schedule): each cached tree must still be the tree of its own product
+            wp2 = dict(plan["world"], data_seed=plan["two_products"]["data_seed"],
+                       dirs=["second"] + list(plan["world"].get("dirs", [])))
+            w2 = world.World(wp2, fresh=False, slot=1)
+            try:
+                try:
+                    ref2 = w2.open(use_cache=False, records_per_chunk=r).load().copy(deep=True)
+                    w.open(create_cache=True, use_cache=False, records_per_chunk=wr)
+                    w2.open(create_cache=True, use_cache=False, records_per_chunk=wr)
+                except Exception as e:  # noqa: BLE001
+                    bump("two-products-setup-raised:" + type(e).__name__)
+                    ref2 = None
+                for k_s in range(3 if ref2 is not None else 0):
+                    calls = {"P": lambda: w.open(records_per_chunk=r).load(),
+                             "Q": lambda: w2.open(records_per_chunk=r).load()}
+                    res, errs, sch = common.concurrent_calls(calls, plan["two_products"]["seed"] + k_s)
+                    bump("two-product-schedules")
+                    bad = None
+                    if sch.deadlock or sch.budget:
+                        bad = Violation(ID, "cached-open-raised", "two-products:hang", {
+                            "deadlock": bool(sch.deadlock)})
+                    for nm, rf in (("P", ref), ("Q", ref2)):
+                        if bad:
+                            break
+                        if nm in errs:
+                            bad = Violation(ID, "cached-open-raised", "two-products:" + type(errs[nm]).__name__,
+                                            {"error": exc_text(errs[nm]), "which": nm})
+                        else:
+                            diffs = tree_diff(rf, res[nm])
+                            if diffs:
+                                bad = Violation(ID, "cached-tree-differs", "two-products", {
+                                    "which": nm, "diffs": diffs[:4]})
+                    if bad:
+                        violations.append(bad)
+                        break
+            finally:
+                w2.destroy()
         return common.outcome(SIM, violations, keys, stats)
     finally:
         w.destroy()
